@@ -153,7 +153,6 @@ func (esp *EntityStreamParser) ParseStream(reader io.Reader, emitEntity func(*En
 		return errors.New("parsing error: Expected [ at start of document")
 	}
 
-	done := false
 	// decode context object
 	context := make(map[string]interface{})
 	err = decoder.Decode(&context)
@@ -191,19 +190,18 @@ func (esp *EntityStreamParser) ParseStream(reader io.Reader, emitEntity func(*En
 					return err
 				}
 			} else if v == ']' {
-				// done
-				done = true
-				break
+				// end of the collection: nothing may follow it
+				if _, err = decoder.Token(); err != io.EOF {
+					return errors.New("parsing error: unexpected data after the end of the entity array")
+				}
+				return nil
 			}
 		default:
 			return errors.New("parsing error: unexpected value in entity array")
 		}
 	}
 
-	if !done {
-		return errors.New("parsing error: unexpected end of stream")
-	}
-	return nil
+	return errors.New("parsing error: unexpected end of stream")
 }
 
 // readNamespaces copies the namespace mappings of a context object into the parser
